@@ -14,6 +14,9 @@
                   `_gather` (asynq_to_async.py:32-70) and the `_asyncio_mode` ContextVar with
                   `AsyncioMode.__enter__/__exit__` (asynq_to_async.py:24-29, 73-90).
 
+        An explicit asyncio_fn (AfNative q) is a coroutine function with a body q of its own, called as it is
+                  (decorators.py:170-174): [drive q fl] with the flag fl of its awaiter, no AsyncioMode of its own.
+
    (iii) [driveH] refines (ii): the token of `with AsyncioMode():` lives in an AsyncioMode object on a
                   heap shared by all Tasks; one new object per activation (decorators.py:114, 137) -
                   what matters when a function is re-entered while it runs.  [run_case] uses it.
@@ -61,20 +64,33 @@ Arguments YDict {A} l.
 
 (* ------------------------------------------------------------------ callables *)
 Inductive fkind := KGen | KPlain | KMethod.    (* generator function / plain function / method: tags *)
-Inductive afn :=
+(* what `.asyncio()` of an @asynq() function is.  The type parameter P is the type of programs (tied to [prog]
+   below): an explicit asyncio_fn is the user's own coroutine function and has a body of its own. *)
+Inductive afn (P : Type) : Type :=
 | AfNone                         (* no asyncio_fn: `.asyncio()` converts the asynq function      *)
 | AfTwin                         (* asyncio_fn = a coroutine function that awaits the converted
                                     twin of the same body (observably the same as AfNone)        *)
-| AfNative (o : outcome).        (* asyncio_fn = the user's own coroutine function; it finishes
-                                    with outcome o                                              *)
-Record cfg := mkcfg { cid : Z; ckind : fkind; cafn : afn }.
+| AfNative (q : P).              (* asyncio_fn = the user's own `async def`, body q.  It is called as it is
+                                    (decorators.py:170-174): NOT under `with AsyncioMode()`, it runs with whatever
+                                    the context of its awaiter holds.  In q, [Yield (YLeaf a) k] is
+                                    `x = await g.asyncio(args)`, [Sync ..] is a plain synchronous call `x = g(args)`
+                                    made by the coroutine, Ret / Raise end it (a [Yield] of a structure stands for
+                                    `await resolve_awaitables(structure)`; the generator emits single awaits only) *)
+Arguments AfNone {P}.
+Arguments AfTwin {P}.
+Arguments AfNative {P} q.
+Record cfg (P : Type) : Type := mkcfg { cid : Z; ckind : fkind; cafn : afn P }.
+Arguments mkcfg {P} cid ckind cafn.
+Arguments cid {P} c.
+Arguments ckind {P} c.
+Arguments cafn {P} c.
 
 Inductive leaf (P : Type) : Type :=
 | LConst (v : val)                               (* ConstFuture(v)                               *)
-| LCall (c : cfg) (p : P)                        (* f.asynq(args), f an @asynq() function/method  *)
+| LCall (c : cfg P) (p : P)                       (* f.asynq(args), f an @asynq() function/method  *)
 | LPxConst (c : Z) (v : val)                     (* px.asynq(args), px an @async_proxy() function
                                                     returning ConstFuture(v)                     *)
-| LPxCall (c : Z) (c' : cfg) (p : P).            (* ... returning f.asynq(args)                   *)
+| LPxCall (c : Z) (c' : cfg P) (p : P).           (* ... returning f.asynq(args)                   *)
 Arguments LConst {P} v.
 Arguments LCall {P} c p.
 Arguments LPxConst {P} c v.
@@ -242,9 +258,15 @@ Arguments resolve {A} await_leaf s fl.
 (* PureAsyncDecorator.asyncio (decorators.py:170-174) + the coroutine made by
    convert_asynq_to_async (109-140): `with AsyncioMode():` around the whole send/throw loop (or
    around the plain call).  An explicit asyncio_fn is called as it is: no AsyncioMode. *)
-Definition call_asyncio (drv : prog -> bool -> tr3) (c : cfg) (p : prog) (fl : bool) : tr3 :=
+Definition call_asyncio (drv : prog -> bool -> tr3) (c : cfg prog) (p : prog) (fl : bool) : tr3 :=
   match cafn c with
-  | AfNative o => (o, fl, [EvBody (cid c) fl; EvDone (cid c) o])
+  | AfNative q =>
+    (* `await asyncio_fn(args)` in the awaiter's own context: the coroutine's body sees the flag the
+       awaiter has - on in the whole subtree of a converted coroutine (the `with AsyncioMode():` of
+       decorators.py:114 surrounds the loop INCLUDING `await resolve_awaitables(result)`, line 127;
+       Tasks made by _gather copy that context) - and what it leaves behind is what the awaiter sees *)
+    let '(o, fl2, tr) := drv q fl in
+    (o, fl2, EvBody (cid c) fl :: tr ++ [EvDone (cid c) o])
   | AfNone | AfTwin =>
     let '(fl1, tok) := mode_enter fl in
     let '(o, fl2, tr) := drv p fl1 in
@@ -367,10 +389,12 @@ Arguments resolveH {A} await_leafH s fl h.
 Section DriveH.
   Variable pol : inst_policy.
 
-  Definition call_asyncioH (drv : prog -> bool -> heap -> tr3 * heap) (c : cfg) (p : prog) (fl : bool) (h : heap)
+  Definition call_asyncioH (drv : prog -> bool -> heap -> tr3 * heap) (c : cfg prog) (p : prog) (fl : bool) (h : heap)
     : tr3 * heap :=
     match cafn c with
-    | AfNative o => ((o, fl, [EvBody (cid c) fl; EvDone (cid c) o]), h)
+    | AfNative q =>
+      let '(r, h2) := drv q fl h in
+      ((o3 r, f3 r, EvBody (cid c) fl :: t3 r ++ [EvDone (cid c) (o3 r)]), h2)
     | AfNone | AfTwin =>
       let i := pol (cid c) h in
       let '(fl1, h1) := enterH i fl h in
